@@ -257,6 +257,25 @@ def obs_c09(c: Ctx, *, D):
                     "r": call(lambda i=i: tree[c.b.nodes[i].node_id], c.nid)})
         out.append({"q": "getitem", "a": {"key": {"t": "node", "v": i}}, "r": call(lambda i=i: tree[c.b.nodes[i]], c.nid)})
     out.append({"q": "getitem", "a": {"key": {"t": "nid", "v": 99}}, "r": call(lambda: tree[987654321987], c.nid)})
+    # resolution order node_id -> data_id -> data: an int key that is the (custom) node_id of node i AND the
+    # data_id of another node j must resolve to node i
+    for i in ids:
+        for j in ids:
+            rd = fl.real_did(st["did"][j - 1])
+            if i == j or isinstance(rd, bool) or not isinstance(rd, int) or rd == 0:
+                continue
+            if any(fl.real_did(st["did"][k - 1]) == rd for k in ids if k != j and st["did"][k - 1] != st["did"][j - 1]):
+                continue
+
+            def lookup(i=i, rd=rd):
+                b2 = core.build(st, fl, node_ids={i: rd})
+                r = b2.tree[rd]
+                for k, nd in enumerate(b2.nodes):
+                    if nd is r:
+                        return k
+                return -2
+            out.append({"q": "getitem", "a": {"key": {"t": "nid", "v": i}, "note": "node_id equals a data_id"},
+                        "r": call(lookup, _int)})
     return out
 
 
